@@ -14,11 +14,11 @@ LEVEL = 'model_checking'
 ENGINE = 'E-input'
 DESIGN_REF = '5/C20'
 TECHNIQUE = ('bounded exhaustive enumeration of report trees (every ordered tree shape with <= 3 sub-sections x every assignment of titles '
-             'from a 9-title alphabet incl. reserved, repeated and invalid names x result placements) written by the real Rst / '
+             'from an 11-title alphabet (incl. dotted titles) incl. reserved, repeated and invalid names x result placements) written by the real Rst / '
              'FormattedRst.write; the written directory is parsed back (pages, anchors, toctree entries, image targets) and compared with '
              'the tree')
 RULE = ('trees: root + k <= 3 sub-sections in every ordered-tree shape (1 + 1 + 2 + 5 shapes, depth <= 3) [thorough: k = 4, and the chain of '
-        'depth 5 and the rejected depth 6]; titles of the sub-sections: every assignment over {A, B, index, conf, figures, "a/b", "..", '
+        'depth 5 and the rejected depth 6]; titles of the sub-sections: every assignment over {A, B, index, conf, figures, v1.0, v1.5, "a/b", "..", '
         '"x\\0", ""}; results: none / one per section / two in the last section and one in the root (a failing TestEqual = table, a '
         'TestStudent = plots; MplPlot.save replaced by a stub creating the file); oracle after write(path): one page per section at '
         'path/<titles...>.rst with the root at index.rst, each page holding exactly the text marker of its own section, every result anchor '
@@ -34,7 +34,7 @@ LEVEL_TEXT = ('Every report tree with up to 3 sub-sections in every shape and ev
               'exactly once on the right page, all toctree entries and image targets resolving, nothing written when a title is rejected.')
 LEVEL_NOTE = 'file system trusted; Sphinx itself is not run (toctree / image resolution is recomputed from the directives).'
 
-TITLES = ['A', 'B', 'index', 'conf', 'figures', 'a/b', '..', 'x\0', '']
+TITLES = ['A', 'B', 'index', 'conf', 'figures', 'v1.0', 'v1.5', 'a/b', '..', 'x\0', '']
 INVALID = {'a/b', '..', 'x\0', '', '.'}
 
 
